@@ -2,7 +2,7 @@
 import os
 from vlib.engine import Scenario
 from vlib import tables
-from gen import regs, datasets
+from gen import templates, regs, datasets
 from props.c10 import parse_nodes
 from props import c01
 
@@ -97,6 +97,25 @@ def scenarios(rng, tier, runner):
             ls += ["ss.list %d" % k, "ss.vals %d" % k]
         ls += ["ds.invalid", "ds.encode 1", "ds.decodelast 1 0 0"] + [x for k in range(3) for x in ("dd.list %d" % k, "dd.vals %d" % k)]
         out.append(Scenario("eqlen-%d" % i, ls, {"tables": "cur", "ed": 4, "template": t, "nsub": 3}))
+    # replication factors holding all ones (0 31 000 = 1, 0 31 001 / 0 31 011 = 255): a count, never a missing value
+    for i in range(12 if tier == "quick" else 150):
+        B, D = P["cur"]
+        fac = rng.choice([31001, 31001, 31011, 31000])
+        body = [templates.pick_element(rng, B) for _ in range(rng.choice([1, 2]))]
+        if fac == 31011:
+            body = body[:1]
+        t = [templates.pick_element(rng, B) for _ in range(rng.choice([0, 1]))] + [100000 + 1000 * len(body), fac] + body + \
+            [templates.pick_element(rng, B)]
+        nsub = rng.choice([2, 3])
+        ls = ["T.use cur", "tm.new %d %s" % (rng.choice([3, 4]), " ".join("%06d" % d for d in t))]
+        same = rng.random() < 0.5
+        for k in range(nsub):
+            ls += ["ss.new", "ss.setfactors %d 255" % k, "ss.expand %d" % k,
+                   "ss.fill %d %d %d" % (k, 9 if same else rng.randrange(1, 10 ** 6), rng.choice([1, 1, 0]))]
+        for k in range(nsub):
+            ls += ["ss.list %d" % k, "ss.vals %d" % k]
+        ls += ["ds.invalid", "ds.encode 1", "ds.decodelast 1 0 0"] + [x for k in range(nsub) for x in ("dd.list %d" % k, "dd.vals %d" % k)]
+        out.append(Scenario("allones-%d" % i, ls, {"tables": "cur", "ed": 4, "template": t, "nsub": nsub}))
     # wide character columns that differ (NBINC field is 6 bits: at most 63 octets)
     for w in (60, 63, 64, 100, 255):
         t = [208000 + w, 1015, 208000, 12101]
